@@ -141,12 +141,12 @@ class MutableKernelSizes:
         :rtype: int
         """
         if kernel_size is not None:
-            if self.tuple_sizes:
-                assert isinstance(kernel_size, tuple), "Kernel size must be a tuple."
-            else:
-                assert isinstance(kernel_size, int), "Kernel size must be an integer."
-
-            new_kernel_size = kernel_size
+            # The size reported by an earlier change is an int, also for tuple kernels
+            new_kernel_size = (
+                kernel_size[-1]
+                if isinstance(kernel_size, (tuple, list))
+                else kernel_size
+            )
         else:
             max_kernels = self.calc_max_kernel_sizes(
                 channel_size, stride_size, input_shape
